@@ -147,6 +147,14 @@ def check_call(text, how, meth, args, force=False):
         return [('differs', '%s = %r, str gives %r' % (what, got, want))]
     if not type_ok(res, how):
         return [('result-type', '%s returned %s' % (what, type(res).__name__))]
+    # the caller goes on working with what it got: a mutable result that is edited in place afterwards must not show in
+    # any later answer (an AnsiString result is a value of its own, as a str result is)
+    for r in (res if isinstance(res, (list, tuple)) else [res]):
+        if type(r) is AnsiString and r is not obj:
+            try:
+                r += '\u03a9'
+            except Exception:  # noqa
+                pass
     return []
 
 
